@@ -235,3 +235,132 @@ Definition c12_kt_known (cfg : kt_config) (pd : parsed) : option string :=
   then Some "C12-kotlin-empty-package"%string
   else if existsb c12_kt_item_inline (items_of pd) then Some "C12-kotlin-jvminline"%string
   else None.
+
+(* ------------------------------------------------------------------ Python *)
+Definition c12_py_fixed : list str :=
+  [lit "Optional"; lit "List"; lit "Dict"; lit "datetime"; lit "BaseModel"; lit "Generic"; lit "ConfigDict";
+   lit "Field"; lit "Annotated"; lit "BeforeValidator"; lit "PlainSerializer"; lit "Enum"; lit "Literal";
+   lit "Union"; lit "TypeVar"; lit "AnyUrl";
+   lit "serialize_binary_data"; lit "deserialize_binary_data"; lit "serialize_datetime_data"; lit "parse_rfc3339"].
+(* names a user type must not bear for the theorem to speak about the program *)
+Definition c12_py_reserved : list str := c12_py_fixed ++ [lit "bytes"; lit "datetime"].
+
+(* the names a type expression spells in Python (Optional[..] is a name there) *)
+Fixpoint c12_py_tnames (t : texp) : list str :=
+  match t with
+  | XName n args => n :: flat_map c12_py_tnames args
+  | XOpt e => lit "Optional" :: c12_py_tnames e
+  | XSeq e => lit "List" :: c12_py_tnames e
+  | XFixed es => lit "Tuple" :: flat_map c12_py_tnames es
+  | XMap k v => lit "Dict" :: c12_py_tnames k ++ c12_py_tnames v
+  | XRaw _ => []
+  end.
+(* tvs: the type-variable vocabulary of the program (its generic parameter names) *)
+Definition c12_py_tuses (tvs : list str) (t : texp) : list str :=
+  filter (fun n => mem_str n c12_py_fixed || mem_str n tvs) (c12_py_tnames t).
+
+Definition c12_py_member_uses (tvs : list str) (m : py_member) : list str :=
+  c12_py_tuses tvs (pym_type m) ++
+  match pym_annotated m with
+  | Some (de, ser) => [lit "Annotated"; lit "BeforeValidator"; lit "PlainSerializer"; de; ser]
+  | None => []
+  end ++
+  (if match pym_alias m with Some _ => true | None => false end || pym_default_none m then [lit "Field"] else []).
+
+Definition c12_py_decl_uses (tvs : list str) (d : py_decl) : list str :=
+  match d with
+  | PYAlias _ _ gs ty => gs ++ c12_py_tuses tvs ty
+  | PYConst _ ty _ => c12_py_tuses tvs ty
+  | PYClass _ _ gs config ms =>
+    lit "BaseModel" :: match gs with [] => [] | _ => lit "Generic" :: gs end ++
+    (if config then [lit "ConfigDict"] else []) ++ flat_map (c12_py_member_uses tvs) ms
+  | PYUnitEnum _ _ _ => [lit "Enum"]
+  | PYAlgebraic _ _ _ _ _ _ vs =>
+    lit "Enum" ::
+    flat_map (fun v => lit "BaseModel" :: lit "Literal" ::
+                       match pyv_content v with PYCType ty => c12_py_tuses tvs ty | _ => [] end) vs ++
+    match vs with [_] => [] | _ => [lit "Union"] end
+  end.
+(* the header: T = TypeVar("T") lines use TypeVar; the datetime helper functions use datetime *)
+Definition c12_py_header_uses (typevars fns : list str) : list str :=
+  match typevars with [] => [] | _ => [lit "TypeVar"] end ++
+  (if mem_str (lit "parse_rfc3339") fns then [lit "datetime"] else []).
+Definition c12_py_uses (tvs : list str) (ds : list py_decl) (typevars fns : list str) : list str :=
+  c12_py_header_uses typevars fns ++ flat_map (c12_py_decl_uses tvs) ds.
+Definition c12_py_defs (typevars fns imported : list str) : list str := typevars ++ fns ++ imported.
+
+(* generic parameters that the program introduces *)
+Definition c12_py_tv_vocab (items : list ritem) : list str := flat_map c12_item_generics items.
+(* ... and those for which a TypeVar is declared: structs and algebraic enums *)
+Definition c12_py_tv_declared (items : list ritem) : list str :=
+  flat_map (fun it => match it with
+                      | ItStruct s => sgenerics s
+                      | ItEnum (EAlgebraic _ _ sh) => egenerics sh
+                      | _ => []
+                      end) items.
+
+Definition c12_py_is_custom (m : str) : bool := str_eqb m (lit "bytes") || str_eqb m (lit "datetime").
+(* Some P: the whole type prints as P, one of the two types with (de)serialiser functions *)
+Definition c12_py_custom (tm : tmap) (t : rtype) : option str :=
+  let mapped k := match tmap_get tm k with
+                  | Some m => if c12_py_is_custom m then Some m else None
+                  | None => None
+                  end in
+  match t with
+  | RSimple id | RGeneric id _ => mapped id
+  | RPrim PDateTime => match tmap_get tm (rtype_display t) with
+                       | Some m => if c12_py_is_custom m then Some m else None
+                       | None => Some (lit "datetime")
+                       end
+  | _ => mapped (rtype_display t)
+  end.
+(* the mapped texts format_special_type itself registers while translating t (any depth) *)
+Fixpoint c12_py_registers (tm : tmap) (t : rtype) : list str :=
+  let special (below : list str) :=
+    match tmap_get tm (rtype_display t) with
+    | Some m => if c12_py_is_custom m then [m] else []
+    | None => below
+    end in
+  match t with
+  | RSimple _ => []
+  | RGeneric id ps => match tmap_get tm id with Some _ => [] | None => flat_map (c12_py_registers tm) ps end
+  | RVec x | RArray x _ | RSlice x | ROption x => special (c12_py_registers tm x)
+  | RHashMap k v => special (c12_py_registers tm k ++ c12_py_registers tm v)
+  | RPrim _ => special []
+  end.
+Definition c12_item_fields (it : ritem) : list rfield :=
+  match it with
+  | ItStruct s => sfields s
+  | ItEnum e => flat_map (fun v => match v with VAnon fs _ => fs | _ => [] end) (evariants (enum_shared e))
+  | _ => []
+  end.
+Definition c12_py_wrapped (f : rfield) : bool := has_default f && negb (is_optional (fty f)).
+(* C12-python-default-translation: a serde(default) field of a non-Option type that prints as
+   bytes / datetime is annotated with the (de)serialiser functions, but what write_field registers is
+   the text `Optional[..]`, for which no functions exist; they are missing unless something else in
+   the file registers the plain type *)
+Definition c12_py_default_translation (tm : tmap) (items : list ritem) : bool :=
+  let fields := flat_map c12_item_fields items in
+  existsb (fun f => c12_py_wrapped f &&
+                    match c12_py_custom tm (fty f) with
+                    | Some p =>
+                      negb (existsb (fun g => negb (c12_py_wrapped g) &&
+                                              match c12_py_custom tm (fty g) with Some q => str_eqb p q | None => false end) fields ||
+                            mem_str p (flat_map (c12_py_registers tm) (flat_map c12_item_types items)))
+                    | None => false
+                    end) fields.
+(* C12-python-alias-typevar: a generic alias `N[T] = ..` for whose parameter no TypeVar is declared *)
+Definition c12_py_alias_typevar (items : list ritem) : bool :=
+  existsb (fun it => match it with
+                     | ItAlias a => existsb (fun g => negb (mem_str g (c12_py_tv_declared items))) (agenerics a)
+                     | _ => false
+                     end) items.
+Definition c12_py_known (cfg : py_config) (pd : parsed) : option string :=
+  if c12_py_alias_typevar (items_of pd) then Some "C12-python-alias-typevar"%string
+  else if c12_py_default_translation (py_type_mappings cfg) (items_of pd) then Some "C12-python-default-translation"%string
+  else None.
+(* user type names avoid the reserved words; no type is mapped to `datetime` (the mapped text would be
+   used without the import that the DateTime translation brings) *)
+Definition c12_py_dom (cfg : py_config) (items : list ritem) : bool :=
+  c12_ids_avoid [] c12_py_reserved items &&
+  forallb (fun kv => negb (str_eqb (snd kv) (lit "datetime"))) (py_type_mappings cfg).
